@@ -3,6 +3,7 @@
 package websocket
 
 import (
+	"compress/flate"
 	"io"
 
 	"nhooyr.io/websocket/internal/xsync"
@@ -62,3 +63,15 @@ type ghostI64 struct{ val int64 }
 
 //gvc:ghost
 func ghi64(v *xsync.Int64) *ghostI64 { panic("ghost") }
+
+// ghconnW(w): the connection a library-internal io.Writer (the trimLastFourBytesWriter
+// in front of (*msgWriter).write) writes to. ghfw(fw).dst: the writer a flate.Writer was
+// created / reset with.
+//
+//gvc:ghost
+func ghconnW(w io.Writer) *Conn { panic("ghost") }
+
+type ghostFW struct{ dst io.Writer }
+
+//gvc:ghost
+func ghfw(fw *flate.Writer) *ghostFW { panic("ghost") }
